@@ -21,10 +21,10 @@ from .world import FuncInfo
 
 
 class Limits:
-    max_paths = 4000
-    max_secs = 600
+    max_paths = 6000
+    max_secs = 3000       # wall-clock backstop per function; solver budgets are deterministic (rlimit)
     quick_ms = 400
-    solve_ms = 20000
+    solve_ms = 30000
 
 
 def _flat_inputs(ctx, model):
@@ -68,7 +68,8 @@ def _solve(ob, ctx, ms):
     """full-budget attempt on one obligation with z3, then the cvc5 CLI"""
     t0 = time.time()
     s = z3.Solver()
-    s.set("timeout", ms)
+    from .ctx import _budget
+    _budget(s, ms)
     for h in ob.hyps:
         s.add(h)
     s.add(z3.Not(ob.goal))
